@@ -171,4 +171,166 @@ theorem siblings_independent (op : Gates) (ts : List (Task MEv (UR Value))) :
 theorem pending_only_on_closed_gates (op : Gates) (pl : Plan MEv (UR Value) (Res Fin)) (h : (pl.poll op).2.isDone = false) :
     (pl.poll op).2.wakeSet ≠ [] ∧ ∀ g ∈ (pl.poll op).2.wakeSet, op g = false := Plan.pending_blocked op pl h
 
+/-! ### 4. the async try macros: canonical plan = `specLoopAT`; every schedule when nothing fails -/
+
+/-- payloads of outputs that are all successes -/
+def urPayloads : List (UR Value) → List Value
+  | [] => []
+  | .ok (.succ p) :: r => p :: urPayloads r
+  | _ :: r => urPayloads r
+
+/-- the operands of a `try_join!` step, run in order up to the first one that fails or panics, are `specChainsTry` -/
+theorem firstStop_chains_try (c : SpecCfg) (htry : c.kind.isTry = true) (pend : Pend) (k : Nat) (vals : List (Option Value))
+    (vis : List (String × Value)) (bcs : List (Nat × List Value)) :
+    (firstStop (stopOf c) (bcs.map (taskOf c pend k vals vis))).1 = (specChainsTry c k vals vis bcs).trace ∧
+    (match (firstStop (stopOf c) (bcs.map (taskOf c pend k vals vis))).2 with
+      | some (.panic n) => (specChainsTry c k vals vis bcs).res = .panic (.user n)
+      | some (.ok v) => (specChainsTry c k vals vis bcs).res = .ok (.error v)
+      | none => (specChainsTry c k vals vis bcs).res = .ok (.ok (urPayloads ((bcs.map (taskOf c pend k vals vis)).map (·.out)))) ∧
+          urVals ((bcs.map (taskOf c pend k vals vis)).map (·.out)) =
+            (urPayloads ((bcs.map (taskOf c pend k vals vis)).map (·.out))).map .succ) := by
+  induction bcs with
+  | nil => exact ⟨rfl, rfl, rfl⟩
+  | cons bc bcs ih =>
+    obtain ⟨b, caps⟩ := bc
+    obtain ⟨ih1, ih2⟩ := ih
+    have hev := taskOf_allEvs c pend k vals vis (b, caps)
+    simp only at hev
+    cases hres : (c.σ.chain b k (specPrev c vals b k) caps vis).res with
+    | panic n =>
+      have hout : (taskOf c pend k vals vis (b, caps)).out = .panic n := by simp [taskOf, hres]
+      simp [List.map_cons, firstStop, hout, stopOf, isPanicUR, specChainsTry, M.andThen, hres, UR.toRes, hev]
+    | ok v =>
+      have hout : (taskOf c pend k vals vis (b, caps)).out = .ok v := by simp [taskOf, hres]
+      cases v with
+      | succ p =>
+        simp only [List.map_cons, firstStop, hout, stopOf, isPanicUR, isFailUR, htry, Value.isSucc, Bool.not_true,
+          Bool.and_false, Bool.or_false, Bool.false_eq_true, if_false, specChainsTry, M.andThen, hres, UR.toRes, hev, ih1]
+        refine ⟨by cases (specChainsTry c k vals vis bcs).res <;> simp [M.ret], ?_⟩
+        cases hfs : (firstStop (stopOf c) (bcs.map (taskOf c pend k vals vis))).2 with
+        | some o =>
+          rw [hfs] at ih2
+          cases o with
+          | panic n => simp only at ih2 ⊢; rw [ih2]
+          | ok w => simp only at ih2 ⊢; rw [ih2]; simp [M.ret, Except.map]
+        | none =>
+          rw [hfs] at ih2
+          simp only at ih2 ⊢
+          rw [ih2.1]
+          have h2 := ih2.2
+          simp only [List.map_map] at h2
+          simp [M.ret, Except.map, urPayloads, urVals, hout, h2]
+      | atom _ | tnil | tcons _ _ | tup _ | fail _ | builder _ | handleOk _ | handlePanic =>
+        simp [List.map_cons, firstStop, hout, stopOf, isPanicUR, isFailUR, htry, Value.isSucc, specChainsTry, M.andThen,
+          hres, UR.toRes, hev, M.ret]
+
+/-- **Canonical schedule = async-try reference.**  The canonical run of the plan of a `try_join_async!` invocation
+    produces exactly the events and the outcome of `specLoopAT` (which `async_try_refines` proves equal to the
+    generated code). -/
+theorem planLoop_canon_try (c : SpecCfg) (pend : Pend) (htry : c.kind.isTry = true) (rem k : Nat) (vals : List (Option Value)) :
+    (planLoop c pend rem k vals).1 ++ (planLoop c pend rem k vals).2.canon.1 = (specLoopAT c rem k vals).trace ∧
+    (planLoop c pend rem k vals).2.canon.2 = (specLoopAT c rem k vals).res := by
+  induction rem generalizing k vals with
+  | zero =>
+    unfold planLoop specLoopAT
+    simp only
+    cases hc : (specCapsAll c k (visibleSpec c.names vals) (c.active k)).res with
+    | panic s => simp [M.andThen, hc, Plan.canon]
+    | stuck => simp [M.andThen, hc, Plan.canon]
+    | ok capss =>
+      obtain ⟨f1, f2⟩ := firstStop_chains_try c htry pend k vals (visibleSpec c.names vals) ((c.active k).zip capss)
+      simp only [M.andThen, hc, Plan.canon]
+      cases hfs : (firstStop (stopOf c) (((c.active k).zip capss).map (taskOf c pend k vals (visibleSpec c.names vals)))).2 with
+      | some o =>
+        rw [hfs] at f2
+        cases o with
+        | ok v => simp only at f2; simp [f1, f2, onStopOf, M.ret]
+        | panic n => simp only at f2; simp [f1, f2, onStopOf]
+      | none =>
+        rw [hfs] at f2
+        simp only at f2
+        obtain ⟨f2a, f2b⟩ := f2
+        simp only [f1, f2a, f2b, Plan.canon, List.append_nil, finishVals, htry, if_true]
+        cases allSome (updVals vals (c.active k)
+          ((urPayloads ((((c.active k).zip capss).map (taskOf c pend k vals (visibleSpec c.names vals))).map (·.out))).map
+            Value.succ)) <;> simp [M.stuck, M.ret]
+  | succ rem ih =>
+    unfold planLoop specLoopAT
+    simp only
+    cases hc : (specCapsAll c k (visibleSpec c.names vals) (c.active k)).res with
+    | panic s => simp [M.andThen, hc, Plan.canon]
+    | stuck => simp [M.andThen, hc, Plan.canon]
+    | ok capss =>
+      obtain ⟨f1, f2⟩ := firstStop_chains_try c htry pend k vals (visibleSpec c.names vals) ((c.active k).zip capss)
+      simp only [M.andThen, hc, Plan.canon]
+      cases hfs : (firstStop (stopOf c) (((c.active k).zip capss).map (taskOf c pend k vals (visibleSpec c.names vals)))).2 with
+      | some o =>
+        rw [hfs] at f2
+        cases o with
+        | ok v => simp only at f2; simp [f1, f2, onStopOf, M.ret]
+        | panic n => simp only at f2; simp [f1, f2, onStopOf]
+      | none =>
+        rw [hfs] at f2
+        simp only at f2
+        obtain ⟨f2a, f2b⟩ := f2
+        obtain ⟨i1, i2⟩ := ih (k + 1) (updVals vals (c.active k)
+          ((urPayloads ((((c.active k).zip capss).map (taskOf c pend k vals (visibleSpec c.names vals))).map (·.out))).map
+            Value.succ))
+        simp only [f1, f2a, f2b]
+        refine ⟨?_, i2⟩
+        rw [← i1]
+        simp [List.append_assoc]
+
+/-- no chain of the world fails or panics -/
+def AllSucceed (σ : World) : Prop := ∀ b k prev caps vis, ∃ p, (σ.chain b k prev caps vis).res = .ok (.succ p)
+
+theorem planLoop_nostop_try (c : SpecCfg) (pend : Pend) (hall : AllSucceed c.σ) (rem k : Nat) (vals : List (Option Value)) :
+    (planLoop c pend rem k vals).2.NoStop := by
+  have hstop : ∀ bc : Nat × List Value, ∀ vis vals,
+      stopOf c (taskOf c pend k vals vis bc).out = false := by
+    intro bc vis vals
+    obtain ⟨p, hp⟩ := hall bc.1 k (specPrev c vals bc.1 k) bc.2 vis
+    simp [taskOf, hp, stopOf, isPanicUR, isFailUR, Value.isSucc]
+  induction rem generalizing k vals with
+  | zero =>
+    unfold planLoop
+    simp only
+    split
+    · exact .done _
+    · exact .done _
+    · refine .step _ _ _ _ _ ?_ (fun _ => .done _)
+      intro t ht
+      obtain ⟨bc, _, rfl⟩ := List.mem_map.mp ht
+      obtain ⟨p, hp⟩ := hall bc.1 k (specPrev c vals bc.1 k) bc.2 (visibleSpec c.names vals)
+      simp [taskOf, hp, stopOf, isPanicUR, isFailUR, Value.isSucc]
+  | succ rem ih =>
+    unfold planLoop
+    simp only
+    split
+    · exact .done _
+    · exact .done _
+    · refine .step _ _ _ _ _ ?_ (fun _ => ih _ _ (fun bc vis vals => by
+        obtain ⟨p, hp⟩ := hall bc.1 (k + 1) (specPrev c vals bc.1 (k + 1)) bc.2 vis
+        simp [taskOf, hp, stopOf, isPanicUR, isFailUR, Value.isSucc]))
+      intro t ht
+      obtain ⟨bc, _, rfl⟩ := List.mem_map.mp ht
+      obtain ⟨p, hp⟩ := hall bc.1 k (specPrev c vals bc.1 k) bc.2 (visibleSpec c.names vals)
+      simp [taskOf, hp, stopOf, isPanicUR, isFailUR, Value.isSucc]
+
+/-- **`try_join_async!`, every schedule, when every chain succeeds**: arbitrary pending points, arbitrary order and
+    batches of gate openings, spurious polls — once polled with all gates open the future is complete with the result of
+    the async-try reference loop (= the generated code, `async_try_refines`), having emitted its events exactly once
+    each.  When a chain fails, which failure is returned depends on the schedule (C05); the per-poll theorems
+    (`pending_only_on_closed_gates`, `pollStep_prefix`) still hold. -/
+theorem try_join_async_every_schedule (c : SpecCfg) (pend : Pend) (htry : c.kind.isTry = true) (hall : AllSucceed c.σ)
+    (rem k : Nat) (vals : List (Option Value)) (gs : List Gates) :
+    ((planLoop c pend rem k vals).2.run (gs ++ [allOpen])).2 = .done (specLoopAT c rem k vals).res ∧
+    ((planLoop c pend rem k vals).1 ++ ((planLoop c pend rem k vals).2.run (gs ++ [allOpen])).1).Perm
+      (specLoopAT c rem k vals).trace := by
+  obtain ⟨c1, c2⟩ := planLoop_canon_try c pend htry rem k vals
+  obtain ⟨r1, r2⟩ := Plan.run_complete gs (planLoop c pend rem k vals).2 (planLoop_nostop_try c pend hall rem k vals)
+  refine ⟨by rw [r1, c2], ?_⟩
+  rw [← c1]
+  exact List.Perm.append_left _ r2
+
 end JoinModel.Props.C09
